@@ -128,7 +128,7 @@ impl<D: DataT, E: FromBoxError> MultipartStream<D, E> {
         self.cur.is_none() && self.state == 2 * self.ranges@.len() + 1 && self.remaining == 0
     }
 
-    //@fn src/serving.rs :: impl MultipartStream :: fn new props=C01,C06,C12 rules=T_stream
+    //@fn src/serving.rs :: impl MultipartStream :: fn new props=C01,C02,C06,C12 rules=T_stream
     fn new(entity: EntityBox<D, E>, part_headers: Vec<Vec<u8>>, ranges: Vec<std::ops::Range<u64>>, len: u64) -> (r: Self)
         requires
             part_headers@.len() == ranges@.len(), ranges@.len() <= 0x07ff_ffff_ffff_ffff,
@@ -137,7 +137,7 @@ impl<D: DataT, E: FromBoxError> MultipartStream<D, E> {
         ensures
             /*@C01,C06,C12 #new_wf*/ r.wf(),
             /*@C01,C12 #new_remaining*/ r.remaining == len,
-            /*@C06 #new_fields*/ r.state == 0 && r.cur.is_none() && r.part_headers == part_headers && r.ranges == ranges && r.entity == entity,
+            /*@C02,C06 #new_fields*/ r.state == 0 && r.cur.is_none() && r.part_headers == part_headers && r.ranges == ranges && r.entity == entity,
     //@body
     //@end
 
@@ -147,13 +147,13 @@ impl<D: DataT, E: FromBoxError> MultipartStream<D, E> {
     //@body
     //@end
 
-    //@fn src/serving.rs :: impl Stream for MultipartStream :: fn poll_next props=C01,C06,C07,C12,C20 implicit=C13,C20 rules=R1,R5,T_stream
+    //@fn src/serving.rs :: impl Stream for MultipartStream :: fn poll_next props=C01,C02,C06,C07,C12,C20 implicit=C13,C20 rules=R1,R5,T_stream
     fn poll_next(&mut self, cx: &mut Context) -> (r: Poll<Option<Result<D, E>>>)
         requires old(self).wf(),
         ensures
             /*@C01,C06,C07,C12,C20 #wf_preserved shared*/ !(r matches Poll::Ready(Some(Err(_)))) ==> final(self).wf(),
             /*@C12,C20 #wf_after_error*/ (r matches Poll::Ready(Some(Err(_)))) ==> final(self).wf(),
-            /*@C06 #frame_unchanged*/ final(self).ranges == old(self).ranges && final(self).entity == old(self).entity && final(self).part_headers@.len() == old(self).part_headers@.len(),
+            /*@C02,C06 #frame_unchanged*/ final(self).ranges == old(self).ranges && final(self).entity == old(self).entity && final(self).part_headers@.len() == old(self).part_headers@.len(),
             /*@C01,C12 #accounting shared*/ match r {
                 Poll::Ready(Some(Ok(d))) => d.bytes().len() <= old(self).remaining && final(self).remaining == old(self).remaining - d.bytes().len(),
                 Poll::Ready(Some(Err(_))) => final(self).remaining == 0,
@@ -468,6 +468,7 @@ proof fn lemma_multipart_order(n: int, t: Seq<MStep>)
 }
 //@endlemma
 
+//@auto_helpers src/body.rs src/serving.rs rules=T_stream,R1
 //@canary_false
 } // verus!
 fn main() {}
